@@ -207,7 +207,12 @@ def check_names(case, scratch, stats=None):
         gi = (pos + 1) % len(names)
         generated = (gi, pos)
         rows = [[(r[pos] if j == gi else c) for j, c in enumerate(r)] for r in rows]
-    if use == 'select':
+    if use == 'select' and case['spell'] == 'a.n' and (len(name) + len(rows)) % 3 == 0:
+        # the variable occurs only inside an f-string replacement field
+        query = "select f'{%s}', NR" % v
+        exp = [[r[pos], i + 1] for i, r in enumerate(rows)]
+        exp_header = ['col1', 'NR']
+    elif use == 'select':
         query = 'select %s, NR' % v
         exp = [[r[pos], i + 1] for i, r in enumerate(rows)]
         exp_header = [name, 'NR']
